@@ -3,6 +3,7 @@ package main
 // Bounded mode: path-forking symbolic interpreter over the typed AST (concrete control, symbolic scalars).
 
 import (
+	"sort"
 	"fmt"
 	"go/ast"
 	"go/constant"
@@ -197,6 +198,12 @@ func (bx *BX) decide(t *Term) bool {
 				s.dom = fd
 				return false
 			}
+		}
+		// several symbols, linear condition: decide by extremes, else split one symbol at the thresholds
+		if r, done := bx.decideLinear(t); done {
+			return r == 1
+		} else if r == 2 {
+			continue // a domain was narrowed; re-examine
 		}
 		// several symbols (or non-linear in a wide one): concretise the smallest finite one
 		var best *Sym
@@ -492,6 +499,9 @@ func (bx *BX) evalIdent(fr *bframe, x *ast.Ident) BVal {
 		}
 		return BNil{}
 	case *types.Func:
+		if nativeOverride[funcFullName(o)] {
+			return &BFunc{builtin: funcFullName(o)}
+		}
 		if fi, ok := bx.prog.Funcs[funcFullName(o)]; ok {
 			return &BFunc{fi: fi}
 		}
@@ -640,11 +650,18 @@ func (bx *BX) evalUnary(fr *bframe, x *ast.UnaryExpr) BVal {
 func (bx *BX) evalBinary(fr *bframe, x *ast.BinaryExpr) BVal {
 	switch x.Op {
 	case token.LAND:
+		if pureTotal(x.Y) {
+			// no side effects and cannot panic: evaluate both sides, one decision later
+			return And(bx.eval(fr, x.X).(*Term), bx.eval(fr, x.Y).(*Term))
+		}
 		if !bx.decide(bx.eval(fr, x.X).(*Term)) {
 			return False
 		}
 		return bx.eval(fr, x.Y)
 	case token.LOR:
+		if pureTotal(x.Y) {
+			return Or(bx.eval(fr, x.X).(*Term), bx.eval(fr, x.Y).(*Term))
+		}
 		if bx.decide(bx.eval(fr, x.X).(*Term)) {
 			return True
 		}
@@ -881,6 +898,10 @@ func bitOpBig(op token.Token, a, b *big.Int) *big.Int {
 func (bx *BX) evalIndex(fr *bframe, x *ast.IndexExpr) BVal {
 	b := bx.eval(fr, x.X)
 	if m, ok := b.(*BMap); ok {
+		if len(m.m) == 0 {
+			bx.eval(fr, x.Index)
+			return bx.zero(elemTypeOf(bx.typeOf(fr, x.X)))
+		}
 		k := bx.mapKey(bx.eval(fr, x.Index))
 		if v, ok := m.m[k]; ok {
 			return v
@@ -911,7 +932,7 @@ func (bx *BX) evalIndex(fr *bframe, x *ast.IndexExpr) BVal {
 		bx.abort("unsupported", "index on %T", b)
 	}
 	// symbolic index into a frozen table of scalars: table term
-	if !it.IsConst() && arr.frozen {
+	if !it.IsConst() {
 		fs := bx.freeSyms(it)
 		lo, hi := bx.bounds(it)
 		if len(fs) == 1 && lo != nil && lo.Sign() >= 0 && hi.Cmp(big.NewInt(int64(ln))) < 0 {
@@ -928,7 +949,7 @@ func (bx *BX) evalIndex(fr *bframe, x *ast.IndexExpr) BVal {
 				}
 			}
 			if scalar {
-				cells, o := arr.cells, off
+				cells, o := append([]BVal{}, arr.cells[off:off+ln]...), 0
 				sortS := SInt
 				if isBool {
 					sortS = SBool
@@ -1027,6 +1048,39 @@ func (bx *BX) evalSelector(fr *bframe, x *ast.SelectorExpr) BVal {
 		return cur
 	case types.MethodVal:
 		fn := sel.Obj().(*types.Func)
+		if nativeOverride[funcFullName(fn)] {
+			return &BFunc{builtin: funcFullName(fn), recv: base, hasRecv: true}
+		}
+		// embedded-field promotion: walk to the receiver
+		if idx := sel.Index(); len(idx) > 1 {
+			cur := base
+			for _, i := range idx[:len(idx)-1] {
+				if p, ok := cur.(BPtr); ok {
+					cur = bx.deref(p)
+				}
+				if st, ok := cur.(*BStruct); ok {
+					cur = st.f[i]
+				}
+			}
+			base = cur
+		}
+		if iv, ok := base.(BIface); ok {
+			// dynamic dispatch on the concrete type
+			if iv.t != nil {
+				ms := types.NewMethodSet(iv.t)
+				if m := ms.Lookup(fn.Pkg(), fn.Name()); m != nil {
+					if cfn, ok := m.Obj().(*types.Func); ok {
+						if nativeOverride[funcFullName(cfn)] {
+							return &BFunc{builtin: funcFullName(cfn), recv: iv.v, hasRecv: true}
+						}
+						if fi, ok := bx.prog.Funcs[funcFullName(cfn)]; ok {
+							return &BFunc{fi: fi, recv: iv.v, hasRecv: true}
+						}
+					}
+				}
+			}
+			bx.abort("unsupported", "dynamic dispatch of %s", fn.Name())
+		}
 		if fi, ok := bx.prog.Funcs[funcFullName(fn)]; ok {
 			return &BFunc{fi: fi, recv: base, hasRecv: true}
 		}
@@ -1271,4 +1325,198 @@ func (bx *BX) storePtr(p BVal, v BVal) {
 		bx.abort("violation", "nil pointer dereference (store)")
 	}
 	bx.abort("unsupported", "store through %T", p)
+}
+
+// decideLinear handles (possibly negated) linear comparisons over several symbols.
+// Returns (truth, true) when decided; (2, false) when a symbol's domain was narrowed by a fork; (0, false) when not applicable.
+func (bx *BX) decideLinear(t *Term) (bool2 int8, done bool) {
+	r, d := bx.decideLinear1(t)
+	return r, d
+}
+
+func (bx *BX) decideLinear1(t *Term) (int8, bool) {
+	neg := false
+	for t.Op == "not" {
+		neg = !neg
+		t = t.Args[0]
+	}
+	var f *linForm
+	strict := false
+	switch t.Op {
+	case "<", "<=":
+		lf, ok := bx.linform(Sub(t.Args[0], t.Args[1]))
+		if !ok {
+			return 0, false
+		}
+		f = lf
+		strict = t.Op == "<"
+	default:
+		return 0, false
+	}
+	// condition C: f < 0 (strict) or f <= 0
+	mn, mx, _, _ := bx.linExtremes(f)
+	holds := func(v *big.Int) bool {
+		if strict {
+			return v.Sign() < 0
+		}
+		return v.Sign() <= 0
+	}
+	res := func(b bool) (int8, bool) {
+		if b != neg {
+			return 1, true
+		}
+		return 0, true
+	}
+	if holds(mx) {
+		return res(true)
+	}
+	if !holds(mn) {
+		return res(false)
+	}
+	// undecided: pick the most influential symbol
+	var best string
+	var bestW *big.Int
+	for n, k := range f.k {
+		if k.Sign() == 0 {
+			continue
+		}
+		s := bx.syms[n]
+		w := new(big.Int).Mul(new(big.Int).Abs(k), new(big.Int).Sub(s.dom[len(s.dom)-1].hi, s.dom[0].lo))
+		if bestW == nil || w.Cmp(bestW) > 0 || (w.Cmp(bestW) == 0 && n < best) {
+			best, bestW = n, w
+		}
+	}
+	if best == "" {
+		return 0, false
+	}
+	s := bx.syms[best]
+	k := f.k[best]
+	rest := &linForm{k: map[string]*big.Int{}, c: f.c}
+	for n, kk := range f.k {
+		if n != best {
+			rest.k[n] = kk
+		}
+	}
+	rmin, rmax, _, _ := bx.linExtremes(rest)
+	// classify each value region of x: sure-true (k*x+rmax holds), sure-false (k*x+rmin fails), middle
+	var td, fd, md []ival
+	classify := func(x *big.Int) int {
+		kx := new(big.Int).Mul(k, x)
+		if holds(new(big.Int).Add(kx, rmax)) {
+			return 0
+		}
+		if !holds(new(big.Int).Add(kx, rmin)) {
+			return 1
+		}
+		return 2
+	}
+	// thresholds are monotone in x; find them by solving, then cut intervals at candidate points
+	cand := []*big.Int{}
+	for _, r := range []*big.Int{rmin, rmax} {
+		x0 := new(big.Int).Div(new(big.Int).Neg(r), k)
+		for d := int64(-2); d <= 2; d++ {
+			cand = append(cand, new(big.Int).Add(x0, big.NewInt(d)))
+		}
+	}
+	for _, iv := range s.dom {
+		pts := []*big.Int{iv.lo}
+		for _, c := range cand {
+			if c.Cmp(iv.lo) > 0 && c.Cmp(iv.hi) <= 0 {
+				pts = append(pts, c)
+			}
+		}
+		sortBig(pts)
+		for i, p := range pts {
+			if i > 0 && p.Cmp(pts[i-1]) == 0 {
+				continue
+			}
+			hi := iv.hi
+			for j := i + 1; j < len(pts); j++ {
+				if pts[j].Cmp(p) > 0 {
+					hi = new(big.Int).Sub(pts[j], big.NewInt(1))
+					break
+				}
+			}
+			piece := ival{p, hi}
+			// classification is constant on a piece only if both ends agree; otherwise fall back to middle
+			c1, c2 := classify(p), classify(hi)
+			cl := 2
+			if c1 == c2 {
+				cl = c1
+			}
+			switch cl {
+			case 0:
+				td = append(td, piece)
+			case 1:
+				fd = append(fd, piece)
+			default:
+				md = append(md, piece)
+			}
+		}
+	}
+	td, fd, md = normDom(td), normDom(fd), normDom(md)
+	var parts [][]ival
+	var kinds []int
+	if len(td) > 0 {
+		parts, kinds = append(parts, td), append(kinds, 0)
+	}
+	if len(fd) > 0 {
+		parts, kinds = append(parts, fd), append(kinds, 1)
+	}
+	if len(md) > 0 {
+		// the middle region must shrink: if it is the whole domain, bisect it
+		if len(td) == 0 && len(fd) == 0 {
+			sz := (&Sym{dom: md}).size()
+			if sz.Cmp(big.NewInt(1)) <= 0 {
+				return 0, false
+			}
+			lo, hi := md[0].lo, md[len(md)-1].hi
+			mid := new(big.Int).Div(new(big.Int).Add(lo, hi), big.NewInt(2))
+			var a, b []ival
+			for _, iv := range md {
+				if iv.hi.Cmp(mid) <= 0 {
+					a = append(a, iv)
+				} else if iv.lo.Cmp(mid) > 0 {
+					b = append(b, iv)
+				} else {
+					a = append(a, ival{iv.lo, mid})
+					b = append(b, ival{new(big.Int).Add(mid, big.NewInt(1)), iv.hi})
+				}
+			}
+			parts, kinds = append(parts, a, b), append(kinds, 2, 2)
+		} else {
+			parts, kinds = append(parts, md), append(kinds, 2)
+		}
+	}
+	c := bx.choose(len(parts))
+	s.dom = parts[c]
+	switch kinds[c] {
+	case 0:
+		return res(true)
+	case 1:
+		return res(false)
+	}
+	return 2, false
+}
+
+func sortBig(v []*big.Int) {
+	sort.Slice(v, func(i, j int) bool { return v[i].Cmp(v[j]) < 0 })
+}
+
+// pureTotal: the expression has no side effects and cannot panic (identifiers, literals, comparisons, + - *, !, && ||).
+func pureTotal(e ast.Expr) bool {
+	switch x := e.(type) {
+	case *ast.ParenExpr:
+		return pureTotal(x.X)
+	case *ast.Ident, *ast.BasicLit:
+		return true
+	case *ast.UnaryExpr:
+		return (x.Op == token.NOT || x.Op == token.SUB || x.Op == token.ADD) && pureTotal(x.X)
+	case *ast.BinaryExpr:
+		switch x.Op {
+		case token.ADD, token.SUB, token.MUL, token.EQL, token.NEQ, token.LSS, token.LEQ, token.GTR, token.GEQ, token.LAND, token.LOR:
+			return pureTotal(x.X) && pureTotal(x.Y)
+		}
+	}
+	return false
 }
